@@ -13,7 +13,7 @@ func TestMain(m *testing.M) {
 	core.Main(m, "C16", "cases = scenario of 0..3 connections each brought into one of {idle after ReadyForQuery, mid-message, held between the closing check and WaitGroup.Add (admitted), held after Add before the handler (registered), inside a statement function (simple query / Execute), inside the parser, inside the first of three pipelined commands} x 1..3 Close callers (concurrent or sequential) each cooperatively held at {none, after the closing check, after close(closer)} x a release order over all holds, gates, message remainders and new queries; oracle over logical timestamps: no Close caller or server goroutine panics, every Close returns once everything is released, no parser/statement interval starts after or spans the last return of the first group of Close calls, Serve returns nil, the listener is closed once, later Close calls return; non-trivial = a connection is admitted/registered/inside a handler when Close runs, or >= 2 callers held at the same point; small scenarios (<= 2 connections, <= 2 callers) have their release orders enumerated exhaustively; distinct = distinct canonical JSON")
 }
 
-var states = []string{"idle", "in-copy", "auth-prompt", "after-panic", "midbatch", "midmsg", "admitted", "registered", "in-stmt", "in-exec", "in-parser", "pipelined"}
+var states = []string{"idle", "discarding", "in-copy", "auth-prompt", "after-panic", "midbatch", "midmsg", "admitted", "registered", "in-stmt", "in-exec", "in-parser", "pipelined"}
 var holds = []string{"", "close.checked", "close.closed"}
 
 func tokens(nc, nk int) []string {
